@@ -89,6 +89,27 @@ def check_window(ctx, mon_state, rng, width, channels, data, uc):
             key = "window-above-threshold-judged-inactive" if model_db >= thr else "window-below-threshold-judged-active"
             ctx.violation(key, {"case": case, "thr": thr, "model_db": model_db, "impl_db": impl_db})
             return
+    # the same window handed over in other bytes-like containers must be judged the same
+    if len(data) and rng.random() < 0.3:
+        import array
+
+        import numpy as np
+
+        thr_c = model_db - 2.0 if rng.random() < 0.5 else model_db + 2.0
+        want = model_db >= thr_c
+        conts = {"bytearray": bytearray(data), "memoryview": memoryview(data), "array": array.array({1: "b", 2: "h", 4: "i"}[width], data),
+                 "numpy": np.frombuffer(data, dtype={1: np.int8, 2: np.int16, 4: np.int32}[width])}
+        conts["memoryview_of_array"] = memoryview(conts["array"])
+        for cname, obj in conts.items():
+            ctx.count("container_variants_checked")
+            try:
+                r = verdict(AudioEnergyValidator(thr_c, width, channels, use_channel=uc), obj)
+            except Exception as exc:
+                ctx.violation(f"window-container-{cname}-raises:{type(exc).__name__}", {"case": case, "exception": repr(exc)[:200]})
+                return
+            if r != want:
+                ctx.violation("verdict-depends-on-window-container", {"case": case, "container": cname, "thr": thr_c, "model_db": model_db, "got": r})
+                return
     # monotone in the threshold
     results.sort()
     seen_false = False
@@ -179,10 +200,12 @@ def in_situ(ctx, conf):
         if args is None:
             return
         ctx.count("in_situ_verdicts")
-        db = E.window_db(bytes(data), args["width"], args["channels"], args["uc"])
-        if abs(db - args["thr"]) > 1e-9 and bool(result) != (db >= args["thr"]):
-            ctx.violation("in-situ-verdict-differs-from-model", {"case": state.get("case"), "thr": args["thr"], "model_db": db,
-                                                                 "window": bytes(data).hex()[:200], "got": bool(result)})
+        # judged against what the CALLER of split() asked for (threshold, selector), not against what the validator was built with
+        req = state["req"]
+        db = E.window_db(bytes(data), req["width"], req["channels"], req["uc"])
+        if abs(db - req["thr"]) > 1e-9 and bool(result) != (db >= req["thr"]):
+            ctx.violation("in-situ-verdict-differs-from-model", {"case": state.get("case"), "requested_thr": req["thr"], "validator_built_with": args,
+                                                                 "model_db": db, "window": bytes(data).hex()[:200], "got": bool(result)})
 
     import auditok
 
@@ -194,8 +217,11 @@ def in_situ(ctx, conf):
                 continue
             data, verdicts = built
             state["case"] = AC.case_json(case)
+            state["req"] = {"thr": case["thr"], "uc": case["uc"], "width": case["width"], "channels": case["channels"]}
+            if case["thr"] == 0:
+                ctx.count("in_situ_cases_threshold_zero")
             try:
-                list(auditok.split(data, **AC.split_kwargs(case), **AC.audio_kwargs(case)))
+                list(auditok.split(data, **AC.split_kwargs(case, long_names=bool(i % 2)), **AC.audio_kwargs(case)))
             except Exception as exc:
                 ctx.violation("exception:" + type(exc).__name__, {"case": state["case"], "exception": repr(exc)[:200]})
             ctx.case(("insitu", data, repr(sorted(state["case"].items()))), any(verdicts))
@@ -265,7 +291,7 @@ def inconclusive(merged, tier):
     c = merged["counters"]
     out = [f"monitor never observed {k}" for k in
            ("decisions_checked", "exact_boundary_cases", "silence_floor_cases", "constructor_cases",
-            "single_channel_selector_ignored_cases", "in_situ_verdicts", "hook_is_valid_calls", "repo_tests_validator_verdicts_checked") if c.get(k, 0) == 0]
+            "single_channel_selector_ignored_cases", "in_situ_verdicts", "in_situ_cases_threshold_zero", "container_variants_checked", "hook_is_valid_calls", "repo_tests_validator_verdicts_checked") if c.get(k, 0) == 0]
     if c.get("monitor_errors", 0):
         out.append("the passive monitor itself raised (see notes)")
     if c.get("energy_values_observed", 0) == 0:
